@@ -4,7 +4,7 @@ use super::{Cfg, ChanEv, RouterWorld};
 use crate::wire::{Props, Tx};
 use rumqttd::verif::{Event, ShadowRequest};
 
-pub const BAD_KINDS: u8 = 20;
+pub const BAD_KINDS: u8 = 21;
 
 fn raw_publish_nonutf8() -> Vec<u8> {
     // PUBLISH QoS0, topic = [0xff, 0xfe], payload "x"
@@ -120,6 +120,14 @@ pub fn bad(w: &mut RouterWorld, cfg: &Cfg, ci: usize, kind: u8) {
                 vec![Tx::Publish { topic: "a/b".into(), qos: 2, retain: false, dup: false, pkid, payload: b"q2a0".to_vec(), props: Some(p) }, Tx::CloseMark]
             } else {
                 vec![Tx::PingReq]
+            }
+        }
+        20 => {
+            // the wrong kind of acknowledgement for the oldest forward: PUBREC for a QoS 1
+            // forward, PUBACK for a QoS 2 one (this broker takes either as "acknowledged")
+            match w.clients[ci].unacked.pop_front() {
+                Some((pkid, q)) => vec![if q == 1 { Tx::PubRec(pkid) } else { Tx::PubAck(pkid) }, Tx::MayClose],
+                None => vec![Tx::PingReq],
             }
         }
         _ => {
